@@ -113,11 +113,11 @@ Proof.
 Qed.
 
 (* ------------------------------------------------------------------ well-formed configurations *)
-(* what the constructors guarantee (NewRightmostTrustedCount refuses 0) plus: no empty chain *)
+(* what the constructors guarantee: NewRightmostTrustedCount refuses 0 *)
 Fixpoint wf_resolver (r : resolver) : bool :=
   match r with
   | RTrustedCount _ n => 0 <? n
-  | RChain subs => match subs with [] => false | _ => forallb wf_resolver subs end
+  | RChain subs => forallb wf_resolver subs
   | _ => true
   end.
 
@@ -138,30 +138,38 @@ Proof.
     intros [a|]; simpl; [rewrite ranges_of_opts_spec|]; reflexivity.
   - simpl in Hwf. apply N.ltb_lt in Hwf. simpl. apply (trusted_count_spec addr P NP). exact Hwf.
   - destruct ranges as [ranges|]; [|reflexivity]. simpl. apply (trusted_range_spec addr P NP).
-  - destruct subs as [|s0 rest]; [discriminate|].
-    change (forallb wf_resolver (s0 :: rest) = true) in Hwf.
-    set (subs := s0 :: rest) in *.
+  - change (forallb wf_resolver subs = true) in Hwf.
     change (resolve rq (RChain subs)) with (chain addr (map (fun s (_ : unit) => resolve rq s) subs)).
-    rewrite chain_spec by (subst subs; discriminate). rewrite map_map.
+    rewrite chain_spec. rewrite map_map.
     change (spec_resolve rq (RChain subs)) with (spec_chain addr (map (spec_resolve rq) subs)).
     f_equal. apply map_ext_in. intros s Hin.
     rewrite Forall_forall in IH. apply IH; [exact Hin|].
     rewrite forallb_forall in Hwf. apply Hwf. exact Hin.
 Qed.
 
-(* every resolver of the model, on every request, runs without panicking *)
-Theorem resolve_never_panics rq r : resolve rq r <> Panic.
+(* every resolver of the model, on every request, returns an address or an error:
+   no panic, and never (nil, nil) *)
+Theorem resolve_ok_or_err rq r : ok_or_err addr (resolve rq r).
 Proof.
   induction r as [| | fwd limit opts | fwd opts | fwd n | fwd ranges | subs IH] using resolver_ind'; simpl.
-  - apply (remote_no_panic addr P NP).
-  - apply (single_no_panic addr P NP).
-  - apply (leftmost_no_panic addr P NP).
-  - apply (rightmost_non_private_no_panic addr P NP).
-  - apply (trusted_count_no_panic addr P NP).
-  - apply (trusted_range_no_panic addr P NP).
-  - unfold chain. apply chain_go_no_panic. rewrite Forall_forall. intros f Hin.
+  - apply (remote_ok_or_err addr P NP).
+  - apply (single_ok_or_err addr P NP).
+  - apply (leftmost_ok_or_err addr P NP).
+  - apply (rightmost_non_private_ok_or_err addr P NP).
+  - apply (trusted_count_ok_or_err addr P NP).
+  - apply (trusted_range_ok_or_err addr P NP).
+  - unfold chain. apply chain_go_ok_or_err. rewrite Forall_forall. intros f Hin.
     apply in_map_iff in Hin. destruct Hin as [s [Hs Hin]]. subst f.
     rewrite Forall_forall in IH. apply IH. exact Hin.
+Qed.
+
+Theorem resolve_never_panics rq r : resolve rq r <> Panic.
+Proof. intros H. pose proof (resolve_ok_or_err rq r) as Ho. rewrite H in Ho. exact Ho. Qed.
+
+Theorem resolve_result rq r :
+  (exists a, resolve rq r = Ok a) \/ (exists e, resolve rq r = Err e).
+Proof.
+  pose proof (resolve_ok_or_err rq r) as Ho. destruct (resolve rq r) as [a|e| |]; try contradiction; eauto.
 Qed.
 
 (* an address is returned only when it is the designated one; a designated error is an error *)
@@ -208,42 +216,7 @@ Example rightmost_prefix_independent_example :
   /\ resolve (attacked rq 0 [S2B "6.6.6.6"] (Some (S2B "127.0.0.1, 7.7.7.7"))) r = Ok ((V4, ip4 5 5 5 5), []).
 Proof. vm_compute. repeat split. Qed.
 
-(* the statement "a chain returns an address or an error" is false of the code as it is *)
-Definition chain_result_statement : Prop :=
-  forall rq subs, (exists a, resolve rq (RChain subs) = Ok a) \/ (exists e, resolve rq (RChain subs) = Err e).
-
-Theorem chain_result_refuted : ~ chain_result_statement.
-Proof.
-  intros H.
-  destruct (H {| xff := []; forwarded := []; single := []; remote := [] |} []) as [[a Ha]|[e He]]; discriminate.
-Qed.
-
-Theorem chain_result_partial rq subs :
-  wf_resolver (RChain subs) = true ->
+(* a chain returns an address or an error - also the empty chain, also with empty chains inside *)
+Theorem chain_result rq subs :
   (exists a, resolve rq (RChain subs) = Ok a) \/ (exists e, resolve rq (RChain subs) = Err e).
-Proof.
-  revert subs.
-  assert (Hall : forall r, wf_resolver r = true ->
-                           (exists a, resolve rq r = Ok a) \/ (exists e, resolve rq r = Err e)).
-  { intros r Hwf. rewrite (resolve_refines_spec rq r Hwf).
-    induction r as [| | fwd limit opts | fwd opts | fwd n | fwd ranges | subs IH] using resolver_ind'; simpl.
-    - unfold spec_remote. pose proof (NP (remote rq)). destruct (P (remote rq)); eauto. congruence.
-    - unfold spec_single. destruct (rev (single rq)) as [|l ?]; eauto. destruct l as [|c l]; eauto.
-      pose proof (NP (c :: l)). destruct (P (c :: l)); eauto. congruence.
-    - unfold spec_leftmost. destruct (find _ _) as [[a|]|]; eauto.
-    - unfold spec_rightmost_non_private. destruct (find _ _) as [[a|]|]; eauto.
-    - unfold spec_trusted_count. destruct (n =? 0); eauto. destruct (nth_error _ _) as [[a|]|]; eauto.
-    - destruct ranges as [ranges|]; eauto. unfold spec_trusted_range. destruct (find _ _) as [[a|]|]; eauto.
-    - simpl in Hwf. destruct subs as [|s0 rest]; [discriminate|].
-      assert (Hsub : Forall (fun r => (exists a, spec_resolve rq r = Ok a) \/ (exists e, spec_resolve rq r = Err e))
-                            (s0 :: rest)).
-      { rewrite Forall_forall in *. intros s Hin. apply IH; [exact Hin|].
-        rewrite forallb_forall in Hwf. apply Hwf. exact Hin. }
-      clear IH Hwf. induction (s0 :: rest) as [|s l IHl]; simpl; eauto.
-      inversion Hsub as [|? ? Hs Hl]; subst. destruct Hs as [[a Ha]|[e He]].
-      + rewrite Ha. eauto.
-      + rewrite He. destruct (IHl Hl) as [[a Ha]|[e' He']].
-        * rewrite Ha. eauto.
-        * rewrite He'. eauto. }
-  intros subs Hwf. apply Hall. exact Hwf.
-Qed.
+Proof. apply resolve_result. Qed.
